@@ -262,7 +262,13 @@ class RefArchive:
             raise RefError("unit decompressed to %d, expected %d" % (len(out), expected))
         return out
 
-    def read(self, name, use_plain_name=True, trace=None, tail="plain"):
+    def read(self, name, use_plain_name=True, trace=None, tail="plain", crc_model=None):
+        """crc_model concerns compressed multi-sector files flagged SECTOR_CRC only. None = lenient (as before: one more
+        offset-table entry is skipped, nothing about the checksums is demanded). "published" = the published layout, strictly:
+        nsec + 2 offset-table entries, every sector inside the block, the last entry equal to the block's stored size, the
+        checksum sector (raw or compressed, encrypted as sector number nsec) holding one ADLER32 per sector of the sector as
+        stored. "private-front" = a named deviation model used only to *diagnose* a mismatch: nsec + 1 entries, nsec plain
+        checksum dwords between the offset table and the first sector, not counted in the block's stored size."""
         lay = self.file_layout(name, use_plain_name)
         if lay is None:
             raise KeyError(name)
@@ -300,7 +306,10 @@ class RefArchive:
                     sec = decrypt_bytes(sec, (key + i) & M32, tail)
                 out += sec
             return bytes(out)
-        ntab = nsec + 1 + (1 if flags & FLAG_SECTOR_CRC else 0)
+        has_crc = bool(flags & FLAG_SECTOR_CRC)
+        if not has_crc:
+            crc_model = None
+        ntab = nsec + 1 + (1 if has_crc and crc_model != "private-front" else 0)
         tab = d[base: base + 4 * ntab]
         if len(tab) < 4 * ntab:
             raise RefError("sector table truncated")
@@ -312,18 +321,42 @@ class RefArchive:
         # the sector table's last entry is the end of the stored block: it must equal the block table's compressed size
         if not flags & FLAG_SECTOR_CRC and offs[nsec] != csize:
             raise RefError("block table compressed_size %d != end of last sector %d" % (csize, offs[nsec]))
+        if crc_model == "published" and offs[nsec + 1] != csize:
+            raise RefError("block table compressed_size %d != end of the checksum sector %d" % (csize, offs[nsec + 1]))
+        if crc_model == "private-front" and (offs[0] != 4 * (2 * nsec + 1) or offs[nsec] != csize + 4 * nsec):
+            raise RefError("not the private checksum layout: first sector at %d, last sector ends at %d, stored size %d" % (offs[0], offs[nsec], csize))
+        limit = csize if crc_model == "published" else csize + 4 * nsec if crc_model == "private-front" else csize + 8
         out = bytearray()
+        stored_sums = []
         for i in range(nsec):
             a, b = offs[i], offs[i + 1]
-            if b < a or b > csize + 8:
+            if b < a or b > limit:
                 raise RefError("sector offsets out of order: %r" % (offs[:6],))
             sec = d[base + a: base + b]
             if enc:
                 sec = decrypt_bytes(sec, (key + i) & M32, tail)
+            stored_sums.append(zlib.adler32(sec) & M32)
             n = min(ss, fsize - i * ss)
             out += self._decompress_unit(sec, n)
         if len(out) != fsize:
             raise RefError("size mismatch")
+        if crc_model == "published":
+            a, b = offs[nsec], offs[nsec + 1]
+            if b < a:
+                raise RefError("checksum sector: offsets out of order")
+            cs = d[base + a: base + b]
+            if enc:
+                cs = decrypt_bytes(cs, (key + nsec) & M32, tail)
+            cs = self._decompress_unit(cs, 4 * nsec) if cs else cs
+            if len(cs) != 4 * nsec:
+                raise RefError("checksum sector holds %d bytes, %d sectors" % (len(cs), nsec))
+            sums = struct.unpack("<%dI" % nsec, cs)
+            if trace is not None:
+                trace["sector_sums"] = sums
+            # a stored value of 0 means "no checksum for this sector" to the readers that verify them
+            bad = [i for i in range(nsec) if sums[i] not in (0, stored_sums[i])]
+            if bad:
+                raise RefError("sector checksum mismatch in sector %d" % bad[0])
         return bytes(out)
 
     def listfile(self):
@@ -388,7 +421,7 @@ def _compress_unit(data, method, zparams=None):
 
 class RefFile:
     def __init__(self, name, data, method=0, encrypt=False, fix_key=False, single_unit=False, flags_extra=0, raw_stored=None, zparams=None,
-                 sector_crc=False, locale=0, platform=0):
+                 sector_crc=False, locale=0, platform=0, crc_when_encrypted=False):
         self.name = name            # bytes or str: the name hashed into the hash table (and used for the key)
         self.data = bytes(data)
         self.method = method
@@ -399,6 +432,7 @@ class RefFile:
         self.raw_stored = raw_stored     # if set: store these bytes verbatim (used for patch entries)
         self.zparams = zparams           # see _compress_unit
         self.sector_crc = sector_crc     # compressed multi-sector files only: offset table with one more entry + checksum sector behind the data
+        self.crc_when_encrypted = crc_when_encrypted  # emit the checksum sector for encrypted files too (encrypted as sector number nsec)
         self.locale = locale             # hash-table entry fields (u16 each)
         self.platform = platform
 
@@ -470,7 +504,7 @@ def write_archive(files, version=1, shift=3, hash_size=None, prefix=0, user_data
             flags |= FLAG_COMPRESS
             nsec = (fsize + ss - 1) // ss
             units = [_compress_unit(f.data[i * ss:(i + 1) * ss], f.method, f.zparams) for i in range(nsec)]
-            with_crc = bool(f.sector_crc) and not f.encrypt
+            with_crc = bool(f.sector_crc) and (not f.encrypt or f.crc_when_encrypted)
             offs = [4 * (nsec + 1 + (1 if with_crc else 0))]
             for u in units:
                 offs.append(offs[-1] + len(u))
